@@ -12,11 +12,10 @@ Definition c15_names (s : str) : outcome (list str) := names_b s.
 Definition c15_prefix (s : str) : outcome str := prefix_b s.
 Definition c15_apply (r : rule) (s : str) : outcome str := naming_b r s.
 Definition c15_event_fn (s : str) : outcome str := event_fn_b s.
-Definition c15_variant (r : rule) (s : str) : outcome str := apply_to_variant_b r s.
-Definition c15_kf_variant (name : str) : bool := kf_C15_variant name.
+Definition c15_variant (r : rule) (s : str) : outcome str := variant_b r s.
 (* the property's predicate on an observed outcome: the function returned *)
 Definition c15_no_panic {A} (o : outcome A) : bool := match o with Ok _ => true | _ => false end.
 
 Extraction Language OCaml.
 Extraction "tt_c15.ml" c15_utf8 c15_validator c15_serde c15_rule_of_str c15_parse c15_names c15_prefix
-  c15_apply c15_event_fn c15_variant c15_kf_variant c15_no_panic.
+  c15_apply c15_event_fn c15_variant c15_no_panic.
